@@ -13,7 +13,8 @@ LEVEL = 'exploration'
 BUDGET = {'quick': 1500, 'thorough': 4000}
 RULE = ('Hypothesis-generated class DAGs (3-9 classes created with type(); bases = subsets of earlier classes made '
         'MRO-acceptable by construction; half of the cases start from a diamond prefix), instantiated twice: as '
-        'component classes and as Processor subclasses; a generated assignment of exact types to 1-4 entities '
+        'component classes and as Processor subclasses (some classes falsy, some with value equality: all their '
+        'instances equal, results are compared by identity); a generated assignment of exact types to 1-4 entities '
         'and a generated subset of processor classes; then EVERY class of the DAG is used as query type for all '
         'six methods (get, get_component, has_component, remove_component, get_processor, remove_processor), the '
         'removing ones on a rebuilt world. Oracle: issubclass/isinstance. Non-trivial = the DAG has a class with '
